@@ -119,7 +119,7 @@ class Exec:
 
     def __init__(self, prefix=(), policy="rtb", start=1_700_000_000.0, horizon=300.0,
                  max_steps=400_000, timer_choices=False, line_files=None, expect=None,
-                 random_value=0.5, chooser=None, tick0=0):
+                 random_value=0.5, chooser=None, tick0=0, grace=0.0):
         Exec.epoch_counter += 1
         self.epoch = Exec.epoch_counter
         self.threads: list[VT] = []
@@ -145,6 +145,9 @@ class Exec:
         self.errors = []  # uncaught exceptions in virtual threads (name, exc)
         self.live_at_end = []
         self.worker_deaths = 0
+        self.grace = grace            # virtual seconds the other threads keep running after main returned
+        self.main_done_tick = None
+        self.main_done_now = None
 
     # ------------------------------------------------------------------ identity
     def me(self) -> VT:
@@ -195,8 +198,12 @@ class Exec:
             return
         try:
             if vt is self.main:
-                self._finish("main-returned")
-                return
+                self.main_done_tick = self.tick
+                self.main_done_now = self.now
+                if not self.grace:
+                    self._finish("main-returned")
+                    return
+                self.live_at_end = [t for t in self.threads if t.state != DONE]
             nxt = self._pick(None)
             if nxt is not None:
                 self._wake(nxt)
@@ -261,20 +268,35 @@ class Exec:
             return later + [t for t in en if t.id <= me.id]
         raise InternalError(f"unknown policy {pol}")
 
+    def _grace_over(self):
+        """After main returned: end quietly once the grace period is used up or nothing can run."""
+        live = self.live_at_end
+        self._finish("main-returned")
+        self.live_at_end = live
+        raise Killed()
+
     def _pick(self, me):
         """Decide who runs next.  Returns a VT (possibly `me`) or terminates."""
         self.steps += 1
         self.tick += 1
         if self.steps > self.max_steps:
+            if self.main_done_tick is not None:
+                self._grace_over()
             self.terminate("steps", self._snapshot())
         en = self._enabled()
         if not en:
             timed = [t for t in self.threads if t.state == BLOCK and t.deadline is not None]
             if not timed:
                 if all(t.state == DONE for t in self.threads):
+                    if self.main_done_tick is not None:
+                        self._grace_over()
                     return None
+                if self.main_done_tick is not None:
+                    self._grace_over()
                 self.terminate("deadlock", self._snapshot())
             t = min(timed, key=lambda x: (x.deadline, x.id))
+            if self.main_done_tick is not None and t.deadline > self.main_done_now + self.grace:
+                self._grace_over()
             if t.deadline > self.now:
                 self.now = t.deadline
             if self.now > self.horizon:
